@@ -10,7 +10,8 @@ ID = "C09"
 RULE = ("Stateful histories over the REAL process-wide tables, drawn as operation lists: open a UnitEnvironment "
         "(1-4 entries, dict or Quantity form, optional custom conversion class, optional failing entry at position j: "
         "existing symbol, symbol equal to a prefixed table symbol, new unit whose prefixed form clashes, missing "
-        "'magnitude'), close the innermost scope, a with-block whose body raises, a with-block that uses the units, "
+        "'magnitude'), close the innermost scope or (overlapping lifetimes, strategy 'overlap') the one opened first, a "
+        "NumericalSolver used on a parsed environment with and without a with-block, a with-block whose body raises, a with-block that uses the units, "
         "DIP parses with $unit lines that succeed / clash with a table constant / are followed by a failing statement; "
         "nesting <= 4, <= 25 steps. Model: stack of registered rows on top of the pristine snapshot; whether a "
         "registration must fail is decided by an independent duplicate check. After EVERY step the key order and row "
@@ -97,7 +98,9 @@ def dip_text(draw):
         lines.append("  = 2 m")
     elif mode == "dim_mismatch" and names:
         lines.append(f"a = 3 K")
-    return {"lines": lines, "mode": mode, "nunits": len(names)}
+    # afterwards the returned environment's units are used by a numerical solver, inside a with block or as a plain object
+    return {"lines": lines, "mode": mode, "nunits": len(names), "names": names,
+            "solver": draw(st.sampled_from([None, "with", "plain", "plain"]))}
 
 
 op = st.one_of(
@@ -105,6 +108,7 @@ op = st.one_of(
     st.tuples(st.just("open"), units_spec()),
     st.tuples(st.just("close")),
     st.tuples(st.just("close")),
+    st.tuples(st.just("close_oldest")),           # overlapping (not nested) lifetimes: the scope opened first ends first
     st.tuples(st.just("with_ok"), units_spec()),
     st.tuples(st.just("with_raise"), units_spec()),
     st.tuples(st.just("dip"), dip_text()),
@@ -118,8 +122,28 @@ def history(draw):
     return {"ops": [list(o) for o in ops]}
 
 
+@st.composite
+def overlap_history(draw):
+    """2-4 scopes alive at the same time (distinct symbols, each with a unit of the custom conversion class), ended in a
+    generated order that is not last-in-first-out"""
+    n = draw(st.integers(2, 4))
+    syms = draw(st.lists(st.sampled_from(FRESH), min_size=n, max_size=n, unique=True))
+    ops = []
+    for sy in syms:
+        e = draw(entry())
+        e = dict(e, sym=sy)
+        if e["form"] != "quantity" and draw(st.integers(0, 3)):
+            e["form"] = "dict_type"
+        ops.append(["open", [e]])
+        if draw(st.integers(0, 3)) == 0:
+            ops.append(["dip", draw(dip_text())])
+    for _ in range(n):
+        ops.append([draw(st.sampled_from(["close_oldest", "close_oldest", "close"]))])
+    return {"ops": ops}
+
+
 def strategies(tier):
-    return {"history": (history(), 1200, 30000)}
+    return {"history": (history(), 1200, 30000), "overlap": (overlap_history(), 300, 6000)}
 
 
 # --------------------------------------------------------------------------- model
@@ -221,6 +245,7 @@ def _check(case, v):
     ever = []
     nt = False
     uid = [0]
+    nonlifo = [False]
 
     def table_rows():
         rows = list(PRISTINE_ROWS)
@@ -245,7 +270,12 @@ def _check(case, v):
         ntyp = sum(1 for _env, _r, ents in stack if any(e["form"] == "dict_type" for e in ents))
         if ntyp:
             want_types = ["HarnessUnitType"] + want_types
-        if snap["types"] != want_types:
+        if nonlifo[0] and stack:
+            # scopes with overlapping lifetimes: which of them keeps a shared conversion class alive is not specified;
+            # everything else is, and so is the table once all of them have ended
+            if [t for t in snap["types"] if t != "HarnessUnitType"] != list(R.PRISTINE["types"]):
+                return v.fail("type-table", f"step {step} ({what}): UNIT_TYPES = {snap['types']}")
+        elif snap["types"] != want_types:
             return v.fail("type-table", f"step {step} ({what}): UNIT_TYPES = {snap['types']}, expected {want_types}")
         # registered symbols usable inside, with the registered factor
         for _env, rows, ents in stack:
@@ -335,6 +365,17 @@ def _check(case, v):
             env.close()
             if invariant(step, "close"):
                 return
+        elif name == "close_oldest":
+            if not stack:
+                continue
+            if len(stack) >= 2:
+                nonlifo[0] = True
+                nt = True
+                v.label("overlapping_lifetimes")
+            env, rows, ents = stack.pop(0)
+            env.close()
+            if invariant(step, "close of the scope opened first"):
+                return
         elif name == "dip":
             spec = o[1]
             uid[0] += 1
@@ -356,12 +397,28 @@ def _check(case, v):
             v.label("dip_" + spec["mode"])
             if invariant(step, f"DIP parse ({spec['mode']}, raised={type(raised).__name__ if raised else None})"):
                 return
+            if raised is None and spec.get("solver") and spec.get("names"):
+                from scinumtools.dip.solvers import NumericalSolver
+                expr = f"1 [{spec['names'][0]}] + 2 [{spec['names'][0]}]"
+                try:
+                    if spec["solver"] == "with":
+                        with NumericalSolver(env2) as slv:
+                            slv.solve(expr)
+                    else:
+                        NumericalSolver(env2).solve(expr)
+                except Exception:
+                    pass
+                nt = True
+                v.label("solver_" + spec["solver"])
+                if invariant(step, f"NumericalSolver on the parsed environment ({spec['solver']})"):
+                    return
     # unwind
     while stack:
         env, rows, ents = stack.pop()
         env.close()
         if invariant("end", "close"):
             return
+    nonlifo[0] = False
     if not R.tables_pristine():
         return v.fail("not-pristine", "all scopes closed but the tables differ from the import-time snapshot")
     v.nt(nt)
